@@ -70,3 +70,9 @@ package project
 //@ func project.encodeValue variant through-toml
 //@   ensures every-value-goes-through-the-toml-encoder: n_tomlenc == old(n_tomlenc) + 1
 //@   modifies heap, n_tomlenc
+
+// What is loaded is what the file says: the scalar fields of a configuration are filled by the TOML
+// decoder only and never rewritten afterwards (loading normalises requirement paths, nothing else).
+//@ struct project.Config
+//@   stable Name, Version, Ignore writers project.none
+
